@@ -60,6 +60,10 @@ def analyse(sc, sp, r):
                                   "detail": {"sid": sid, "time": t, "begins_at": vt[i], "start": start,
                                              "lower_bound": lower, "rt_factor": f, "time_resolution": tr}})
                     break
+    # events that were not in the future any more when mosaik processed them (the request was
+    # stuck behind a stalled reply on the same connection): outside the property's envelope
+    past_event = any(h[0] == "set_event_processed" and rt_on and h[2] < until
+                     and h[2] * period <= (vt[i] - start) + TOL for i, h in enumerate(hist))
     # (b) compliant real-time run completes without internal error
     strict = cfg.get("rt_strict", False)
     strict_raise = oc[0] == "exception" and oc[1] == "RuntimeError" and "too slow" in oc[2]
@@ -67,6 +71,8 @@ def analyse(sc, sp, r):
         if oc[0] in ("deadlock", "livelock", "hang"):
             viols.append({"kind": "rt_run_" + oc[0], "features": feats,
                           "detail": {"outcome": list(oc), "waiting": pcore.waiting_summary(r)}})
+        elif oc[0] == "exception" and not strict_raise and past_event:
+            pass
         elif oc[0] == "exception" and not strict_raise:
             head = re.sub(r"[-\w]*\d[-\w:.]*", "#", " ".join(oc[2].split()[:5]))[:40]
             viols.append({"kind": "rt_internal_error", "features": dict(feats, type=oc[1], where=oc[3], msg=head),
@@ -119,6 +125,7 @@ def analyse(sc, sp, r):
                                       "detail": {"sid": sid, "t": t, "called_at": vt[i], "start": start,
                                                  "steps": [x for x, _ in steps.get(sid, [])]}})
     return viols, {"paced": paced, "too_slow": len(too_slow), "strict_raise": strict_raise,
+                   "past_event": past_event,
                    "first_slow": too_slow[0] if too_slow else None}
 
 
@@ -148,6 +155,8 @@ def run_case(case, prop) -> Dict[str, Any]:
         st["runs_with_too_slow_report"] = 1
     if info["strict_raise"]:
         st["strict_raised"] = 1
+    if info["past_event"]:
+        st["runs_with_event_already_past_on_arrival"] = 1
     if sp.get("overrides"):
         st["fault_long_stall"] = 1
     if sc["rt"]["durations"] != [0.0]:
